@@ -159,7 +159,9 @@ func (m *nodeMonitor) check() {
 						o.violate("C08", "choose-called-twice", fmt.Sprintf("ChooseProposedBlock called %d times in %d/%d", rm.chooseCalls, m.curH, m.curR))
 					}
 				}
-				if rm.prevoteAnswer != nil {
+				// The call may have been queued behind the one that chose the prevote; only a call made after the
+				// prevote was already signed shows the machine asking again.
+				if rm.prevoteAnswer != nil && rm.prevoteSigned {
 					o.violate("C08", e.a+"-after-prevote-chosen", fmt.Sprintf("%s called in %d/%d after the strategy already chose its prevote", e.a, m.curH, m.curR))
 				}
 				for _, ph := range c.phs {
@@ -396,7 +398,17 @@ func (m *nodeMonitor) quiescent() {
 			}
 		}
 		if single || rm.prevoteDelayFired || pcTotal >= minority(total) {
-			o.violate("C08", "precommit-decision-not-requested", fmt.Sprintf("in %d/%d a precommit decision is due (single-block prevote quorum=%v, prevote delay fired=%v, precommit presence %d>=%d) but DecidePrecommit was never called", h, r, single, rm.prevoteDelayFired, pcTotal, minority(total)))
+			trigger := "minority-precommits"
+			if single {
+				trigger = "prevote-quorum"
+			} else if rm.prevoteDelayFired {
+				trigger = "prevote-delay-fired"
+			}
+			phase := "before-own-prevote"
+			if rm.prevoteAnswer != nil || rm.chooseCalls > 0 {
+				phase = "after-own-prevote"
+			}
+			o.violate("C08", "precommit-decision-not-requested:"+trigger+":"+phase, fmt.Sprintf("in %d/%d a precommit decision is due (single-block prevote quorum=%v, prevote delay fired=%v, precommit presence %d>=%d) but DecidePrecommit was never called", h, r, single, rm.prevoteDelayFired, pcTotal, minority(total)))
 		}
 	}
 }
